@@ -8,7 +8,9 @@ BANK_KNOWN = {"ShadowByTag": "D14", "Ambiguous": "D14", "EmbedTagged": "D16", "E
               "WithMarshalers": "D13", "big.Int": "D13"}
 BANK_REC = ["Rec", "RecA", "PtrSelf", "PtrA", "PtrIntoSelf", "PtrTail1", "PtrC1", "HoldsRho"]
 BANK_BAD = ["Handler", "IntKeyed", "MyChan", "TwoHandlers", "Handler"]
-GEN = {"names": [], "redeclared": set(), "embedding": set(), "embeds": {}}
+GEN = {"names": [], "redeclared": set(), "embedding": set(), "embeds": {}, "locals": []}
+# the hand-written pair of the bank: two function-local `type Item struct` (harness/gotype.go)
+BANK_LOCALS = [["LocalItemA", "LocalItemB"]]
 
 
 def embeds_closure(name):
@@ -26,7 +28,8 @@ def harness_files(seed, tier):
     """Plugin hook HARNESS_FILES: the declared types of this run, compiled into the harness through a build overlay."""
     import random
     from . import gen_decls
-    src, infos = gen_decls.gen_decls(random.Random(seed * 7919 + 13), 30 if tier == "quick" else 80)
+    src, infos, locs = gen_decls.gen_decls(random.Random(seed * 7919 + 13), 30 if tier == "quick" else 80)
+    GEN["locals"] = locs
     GEN["names"] = [x["name"] for x in infos]
     GEN["redeclared"] = {x["name"] for x in infos if x["redeclared"]}
     GEN["embedding"] = {x["name"] for x in infos if x["embeds"]}
@@ -109,6 +112,33 @@ def typeschemas_case(rng, used):
     return t, warm, ts
 
 
+# tag names: encoding/json accepts letters and decimal digits of EVERY script (unicode.IsLetter / unicode.IsDigit) and the ASCII
+# punctuation !#$%&()*+-./:;<=>?@[]^_{|}~ and blank
+TAG_NAMES = ["a", "b", "c", "d", "e", "x_y", "k.1", "f n", "a-b", "q?", "p:q", "\u00e9", "na\u00efve", "\u00df9", "\u03a9m", "\u04342",
+             "\u0633\u0637\u0631\u0661", "\u9805\u76ee\uff12", "x\uff11", "\u0915\u0969", "n\u0663", "\u0e01\u0e53", "a/b~c", "{k}|$", "7"]
+
+
+def same_name_case(rng, used):
+    """A type that holds two (or three) DIFFERENT declared struct types of one name and package path (function-local declarations
+    of the harness: the hand-written pair and the generated ones), each by value / pointer / in a container, in any order."""
+    vs = list(rng.choice(BANK_LOCALS + GEN["locals"]))
+    rng.shuffle(vs)
+    if rng.random() < 0.3:
+        vs.append(rng.choice(vs))                        # one of them twice
+    fields = []
+    for i, nm in enumerate(vs):
+        N = {"k": "named", "name": nm}
+        w = rng.choice([N, N, N, {"k": "ptr", "e": N}, {"k": "slice", "e": N}, {"k": "map", "key": "string", "e": N}, {"k": "array", "n": 1, "e": N},
+                        {"k": "struct", "fields": [{"name": "V", "tag": 'json:"v"', "t": N}]}])
+        fields.append({"name": "F%d" % i, "tag": rng.choice(['json:"f%d"' % i, "", 'json:"f%d,omitempty"' % i]), "t": w})
+    if rng.random() < 0.3:
+        fields.insert(rng.randint(0, len(fields)), {"name": "Z", "tag": 'json:"z"', "t": gen_type(rng, 2, used, allow_known=0.0)})
+    t = {"k": "struct", "fields": fields}
+    if rng.random() < 0.3:
+        t = {"k": rng.choice(["slice", "ptr", "map"]), "key": "string", "e": t}
+    return t
+
+
 TAGS = ['json:"%s"', 'json:"%s,omitempty"', 'json:"%s,omitzero"', 'json:"%s,omitempty,omitzero"', "", 'json:",omitempty"', 'json:"-"',
         'json:"-,"', 'json:"%s" jsonschema:"described"']
 
@@ -127,6 +157,8 @@ def gen_type(rng, depth, used, allow_known=0.04, allow_rec=0.0, allow_bad=0.0):
                 used.add(n)
                 return {"k": "named", "name": n}
             n = rng.choice(GEN["names"]) if GEN["names"] and rng.random() < 0.6 else rng.choice(BANK_PLAIN)
+            if rng.random() < 0.06:
+                n = rng.choice(rng.choice(BANK_LOCALS + GEN["locals"]))      # one of several same-named declared types
             used.add(n)
             return {"k": "named", "name": n}
         if rng.random() < allow_bad:
@@ -158,7 +190,7 @@ def gen_type(rng, depth, used, allow_known=0.04, allow_rec=0.0, allow_bad=0.0):
             else:
                 jnames.append("-")
         if "%s" in tag:
-            jn = rng.choice(["a", "b", "c", "d", "e", "x_y", "k.1", "f n", "a-b", "q?", "p:q", "é"])
+            jn = rng.choice(TAG_NAMES)
             while jn in jnames:
                 jn += "1"
             jnames.append(jn)
